@@ -476,6 +476,17 @@ func runScenario(d *driver, kind string) {
 			d.crashWithin(li, 2+d.r.Intn(6)) // leave a staging bundle / lock ahead of storage behind
 		}
 		d.round(li)
+		if d.alive(li) && d.r.Intn(3) == 0 {
+			// tampering WHILE the log runs: an entry of the right-edge partial data tile is forged in the
+			// bucket (well-formed, same count); the running instance goes on from its own verified state
+			d.forceEdgeLeaf = true
+			d.tamperRandom(saved)
+			d.forceEdgeLeaf = false
+			d.stats["tamper-while-running"]++
+			d.submitSome(li, 1+d.r.Intn(3))
+			d.round(li)
+			d.round(li)
+		}
 		d.kill(li)
 		for t := 1 + d.r.Intn(2); t > 0; t-- {
 			d.tamperRandom(saved)
@@ -852,7 +863,7 @@ func (d *driver) tamperRandom(saved map[string][]byte) {
 	// a checkpoint validly signed with the log's own key that contradicts (same size, other root),
 	// overtakes (larger) or trails (smaller) the lock checkpoint: what an instance running against
 	// another lock store would have published
-	if d.r.Intn(4) == 0 && len(d.insts) > 0 {
+	if !d.forceEdgeLeaf && d.r.Intn(4) == 0 && len(d.insts) > 0 {
 		var lk cpTuple
 		for _, v := range w.lock {
 			if t := w.canon.parse(v); t.ok && t.key == d.insts[0].keyID {
@@ -879,7 +890,7 @@ func (d *driver) tamperRandom(saved map[string][]byte) {
 	}
 	// alter the staging bundle a crashed round left behind: the data tile INSIDE the bundle gets one
 	// forged entry (hash tiles untouched), as if the bundle had been rewritten in the bucket
-	if d.r.Intn(4) == 0 {
+	if !d.forceEdgeLeaf && d.r.Intn(4) == 0 {
 		for _, c := range keys {
 			if !strings.HasPrefix(c, "staging/") {
 				continue
@@ -936,7 +947,7 @@ func (d *driver) tamperRandom(saved map[string][]byte) {
 	}
 	// forge one entry of the right-edge partial data tile: same shape, same index and timestamp, but
 	// other certificate bytes (unparseable garbage, or a copy with one byte changed)
-	if d.r.Intn(6) == 0 {
+	if d.forceEdgeLeaf || d.r.Intn(6) == 0 {
 		var edge string
 		for _, c := range keys {
 			if strings.HasPrefix(c, "tile/data/") && strings.Contains(c, ".p/") {
